@@ -1,6 +1,6 @@
 From Coq Require Import List NArith Lia Bool Arith.
 Import ListNotations.
-Require Import RA Seqlock.
+Require Import RA SeqlockInv.
 
 (* ===== C18: readers and try_update never wait; C13: base times only move forward ===== *)
 Section Progress.
